@@ -483,7 +483,8 @@ fn written_arg(rng: &mut Rng) -> String {
 }
 
 fn flag_value(rng: &mut Rng) -> String {
-    rng.pick_s(&["true", "false", "true", "false", "yes", "no", "0", "1", "TRUE", "False", "NO", "\"\"", "${y}", "%{w}", "on", "off"]).to_string()
+    // (`00`, `+0`, `-0`, `0.0`, `000`: numerically zero, but only the exact text `0` is falsy)
+    rng.pick_s(&["true", "false", "true", "false", "yes", "no", "0", "1", "TRUE", "False", "NO", "\"\"", "${y}", "%{w}", "on", "off", "00", "+0", "-0", "0.0", "000", "falſe", "nO", "İ"]).to_string()
 }
 
 fn push_group(out: &mut Vec<String>, ind: &str, first: String, probe: String) {
